@@ -132,11 +132,9 @@ PROPS = {
     ),
     'C13': dict(
         units=['tokenizer', 'parser_unary'],
-        level_text='PARTIAL. Proved for all inputs on the real tokenizer / parser functions: (1) every escape of a quoted string literal pushes exactly the character the CEL escape denotes (one named obligation per escape: a b f n r t v, backslash, quotes, \\xHH \\uHHHH \\UHHHHHHHH = the code point of exactly that many hex digits and only if it is a Unicode scalar value, three-digit octal); (2) the number scanner collects exactly the characters it consumes and hands exactly that text to std: radix 16 iff the 0x marker (stripped), a trailing u/U selects the unsigned token, otherwise int or float parse of the same text; (3) parse_primary turns each literal token into the constant it carries (int literals: for values up to i64::MAX). The value std computes from a digit string (from_str_radix, parse::<f64>, char::from_u32) is assumed.',
-        not_covered=['integer literals above i64::MAX wrap instead of being rejected (known, unrepaired: the repair needs a negative-literal rule so that -9223372036854775808 stays expressible; no obligation is stated for that range)',
-                     'byte-string literals (parse_bytes_literal), f-string segmentation, keywords/identifiers, the dispatch on the first character in collect_next_token: not under contract',
-                     'what std computes: from_str_radix, str::parse::<f64> (correct rounding), char::from_u32 are assumed'],
         assumptions=['inputs shorter than 2 GiB (the f-string brace depth counter is an i32)', 'std: from_str_radix / parse::<f64> / char::from_u32 / is_digit(16) / is_ascii_hexdigit / trim_start_matches as specified in the trampolines'],
+        level_text='PARTIAL. Proved for all inputs on the real tokenizer / parser functions: (1) every escape of a quoted string literal and of a byte-string literal pushes exactly the character / byte the CEL escape denotes (one named obligation per escape: a b f n r t v, backslash, quotes; \\xHH \\uHHHH \\UHHHHHHHH = the code point of exactly that many hex digits and only if it is a Unicode scalar value; three-digit octal; raw strings and plain characters are taken literally, UTF-8 encoded in byte strings); (2) the number scanner collects exactly the characters it consumes and hands exactly that text to std: radix 16 iff the 0x marker (stripped), a trailing u/U selects the unsigned token, otherwise int or float parse of the same text; (3) keywords (true false null in match case) vs identifiers = the longest run of identifier characters; (4) parse_primary turns each literal token into the constant it carries (int literals: for values up to i64::MAX). The value std computes from a digit string (from_str_radix, parse::<f64>, char::from_u32) is assumed.',
+        not_covered=['integer literals above i64::MAX wrap instead of being rejected (known, unrepaired: the repair needs a negative-literal rule so that -9223372036854775808 stays expressible; no obligation is stated for that range)', 'f-string segmentation ({ } handling) beyond "scanner stays well formed"; the dispatch from the first character to the literal sub-scanners (string / bytes / number) is only covered for operators, keywords and identifiers', 'what std computes: from_str_radix, str::parse::<f64> (correct rounding), char::from_u32, UTF-8 encoding are assumed'],
     ),
     'C17': dict(
         units=['parser', 'compprog', 'parser_expr', 'parser_unary', 'parser_member', 'parser_matchx', 'parser_top'],
@@ -201,7 +199,7 @@ PROPS = {
     'C10': dict(
         units=['preresolved', 'interp', 'interp_vm_g0', 'compprog', 'parser_expr', 'parser_unary', 'parser_match', 'parser_member', 'parser_matchx', 'parser_top', 'balance'],
         assumptions=['HashMap<u32,usize> semantics (vstd)', 'locations[&label] rewritten to *locations.get(&label).unwrap() (std defines Index that way)'],
-        not_covered=["a machine-checked lemma that the emitted templates are stack-balanced and satisfy resolve()'s precondition (unique, defined labels) is not stated: the templates themselves are pinned instruction by instruction and labels are proved to come fresh from one counter", 'PreResolvedByteCode::extend / push / FromIterator (generic IntoIterator loops): assumed', 'f-string code (dropped arm)'],
+        not_covered=['the inductions that chain the balance step lemmas (unit balance) along the token stream: the step lemmas are proved and the parse loops are proved to emit exactly the step templates, the induction connecting the two is not stated; call / list / map / access / type-pattern code is not covered by a balance lemma', "that the opcode stack effects restated in unit balance agree with the VM arm contracts; that the compiler's labels satisfy resolve()'s precondition (unique, defined): assumed", 'PreResolvedByteCode::extend / push / FromIterator (generic IntoIterator loops): assumed', 'f-string code (dropped arm)'],
     ),
     'C06': dict(
         units=['value_coll', 'value_arith', 'interp_vm_g4', 'interp_vm_g5', 'interp_vm_g6', 'interp_vm_g7', 'wiring', 'parser_member', 'compprog'],
